@@ -97,7 +97,9 @@ def sess_history(seed, hist=None, profile='main'):
         return dp.finish_session(lines, evs, text, seed, {'history'})
     import kernpy as kp
     doc2, _ = kp.loads(text)
-    evs[-1]['snap2'] = session.snapshot(doc2)
+    session.spoil_document(doc2)            # the second import belongs to the caller, who takes it apart; a third import must not notice
+    doc3, _ = kp.loads(text)
+    evs[-1]['snap2'] = session.snapshot(doc3)
     for k in hist:
         c = concrete(CALLS[k - 1], doc)
         ev = do_call(doc, c)
